@@ -101,6 +101,8 @@ pub fn run(out_path: &str, seed: u64, n: usize) -> i32 {
     let mut hctr = 1000u64;
     let mut attempts_n = 0u64;
     for (pi, ops) in programs(n, seed).into_iter().enumerate() {
+        let ops_for_park = ops.clone();
+        let _ = &ops_for_park;
         let data = format!("0x{}", hex::encode(crate::asm::encode_ops(&ops)));
         writeln!(out, "{}", json!({"ev": "GasBegin", "prog": pi, "ops": ops})).unwrap();
         let call = json!({"from": s1_hex, "to": cell_hex, "data": data});
@@ -147,6 +149,46 @@ pub fn run(out_path: &str, seed: u64, n: usize) -> i32 {
                 // C03's business, but the attempts would no longer be comparable
                 eprintln!("state after clearCaches differs from the committed state");
                 return 2;
+            }
+        }
+        // ---- the same program as a PARKED signed transaction: it keeps the allowance of its OWN inscription length when it
+        // is executed later inside another call (the triggering transaction has a very different length)
+        if let Some(e) = est {
+            let need_len = (e + 11999) / 12000;
+            for (own_len, trigger_len) in [(need_len as i64, 3i64), (need_len as i64 - 1, 400_000i64)] {
+                if own_len < 2 {
+                    continue;
+                }
+                hctr += 1;
+                let hash = names::hash_of_token(&format!("h{}", hctr), 0);
+                let k1 = format!("{:#x}", p.names.addr("k1").unwrap());
+                let n0 = p.inst.call("eth_getTransactionCount", json!([k1, "latest"])).ok().and_then(u64_of).unwrap_or(0);
+                let parked = p.raw_tx_public(&json!({"signer": "k1", "nonce": n0 + 1, "to": cell, "ops": ops, "chain": "own"}));
+                let trigger = p.raw_tx_public(&json!({"signer": "k1", "nonce": n0, "to": "dead", "ops": [], "chain": "own"}));
+                let zero32 = format!("0x{}", "00".repeat(32));
+                let r1 = p.inst.call("brc20_transact", json!({"raw_tx_data": format!("0x{}", hex::encode(parked)), "timestamp": 102, "hash": format!("{:#x}", hash),
+                    "tx_idx": 0, "inscription_id": format!("gp{}", hctr), "inscription_byte_len": own_len, "op_return_tx_id": zero32}));
+                let r2 = p.inst.call("brc20_transact", json!({"raw_tx_data": format!("0x{}", hex::encode(trigger)), "timestamp": 102, "hash": format!("{:#x}", hash),
+                    "tx_idx": 0, "inscription_id": format!("gt{}", hctr), "inscription_byte_len": trigger_len, "op_return_tx_id": zero32}));
+                let rcs = r2.ok().and_then(|v| v.as_array().cloned()).unwrap_or_default();
+                if !r1.is_ok() || rcs.len() != 2 {
+                    writeln!(out, "{}", json!({"ev": "GasAttempt", "via": "drained", "len": own_len, "status": 9, "gas_used": 0, "out": format!("{} / {}", r1.err_text(), r2.err_text()), "changed": true, "nonce_delta": 9})).unwrap();
+                } else {
+                    let rc = &rcs[1];
+                    let tr = p.inst.call("debug_traceTransaction", json!([rc["transactionHash"]])).ok().cloned().unwrap_or(Value::Null);
+                    let outp = p.abs_output(tr["output"].as_str().unwrap_or("0x"));
+                    let after = snapshot(&mut p, cell, &slots);
+                    let changed = after["cells"] != base["cells"] || after["n_cell"] != base["n_cell"];
+                    let n1 = p.inst.call("eth_getTransactionCount", json!([k1, "latest"])).ok().and_then(u64_of).unwrap_or(0);
+                    attempts_n += 1;
+                    writeln!(out, "{}", json!({"ev": "GasAttempt", "via": "drained", "len": own_len, "trigger_len": trigger_len, "status": u64_of(&rc["status"]).unwrap_or(9),
+                        "gas_used": u64_of(&rc["gasUsed"]).unwrap_or(0).min(2_000_000_000), "out": outp, "changed": changed, "nonce_delta": n1 as i64 - n0 as i64 - 1})).unwrap();
+                }
+                let c = p.inst.call("brc20_clearCaches", json!([]));
+                if !c.is_ok() {
+                    eprintln!("clearCaches failed: {}", c.err_text());
+                    return 2;
+                }
             }
         }
     }
